@@ -54,6 +54,9 @@ type c17Conn struct {
 	// prevGap is the silence that preceded the last answered call: a reaper pass that found the connection
 	// idle just before that call may still be on its way to closing it
 	prevGap time.Duration
+	// ansRedials is the client's reconnect count when it was last answered: after a reconnect (the client
+	// library redials a connection it has left silent for 20 s) the NEW connection has not been answered yet
+	ansRedials int
 }
 
 type c17State struct {
@@ -74,7 +77,7 @@ func (s *c17State) servedOpen() int {
 	simrt.RaceOff()
 	n := 0
 	for _, c := range s.conns {
-		if c.answered && !c.closed && !c.cl.Conn.PeerClosed() {
+		if c.answered && !c.closed && c.cl.Redials == c.ansRedials && !c.cl.Conn.PeerClosed() {
 			n++
 		}
 	}
@@ -331,6 +334,7 @@ func runC17(t *testing.T, scAny any, trace bool) *Outcome {
 							o.Vio("C17.served-after-stop", "op="+stp.Op, "client %d step %d: a %s call sent at t=%v, after Stop/Close had returned, was answered", ci, si, stp.Op, sentAt)
 						}
 						cc.answered = true
+						cc.ansRedials = cl.Redials
 						cc.prevGap = sentAt - cc.lastAct
 						cc.lastAct = now()
 						if n := st.servedOpen(); n > effMax {
@@ -352,12 +356,12 @@ func runC17(t *testing.T, scAny any, trace bool) *Outcome {
 						// it: the call is read within milliseconds of being sent, a reaper pass that had already listed the
 						// connection closes it within milliseconds too, so a close that comes 50 ms or more after the send
 						// and well before send + IdleTimeout belongs to a pass that started while the call was being served
-						if dt := now() - sentAt; cc.answered && adminStarted.Load() == 0 && idleChangedAt.Load() == 0 && effIdle >= 200*time.Millisecond &&
+						if dt := now() - sentAt; cc.answered && cl.Redials == cc.ansRedials && adminStarted.Load() == 0 && idleChangedAt.Load() == 0 && effIdle >= 200*time.Millisecond &&
 							dt >= 50*time.Millisecond && dt < effIdle-20*time.Millisecond && cl.Conn.PeerClosed() {
 							o.Vio("C17.connection-reaped-while-serving", "op="+stp.Op, "client %d step %d: the server closed the connection %v after a %s call had been sent on it, without answering, although IdleTimeout is %v (the connection was not idle that long: a call had just been read from it)", ci, si, dt, stp.Op, effIdle)
 						}
 						// a connection that was being served and active is not closed without reason
-						if cc.answered && adminStarted.Load() == 0 && idleChangedAt.Load() == 0 && maxStall == 0 && sentAt-cc.lastAct < effIdle/2 && cc.prevGap < effIdle/2 && sentAt-cc.lastAct < 10*time.Second && effIdle >= 100*time.Millisecond {
+						if cc.answered && cl.Redials == cc.ansRedials && adminStarted.Load() == 0 && idleChangedAt.Load() == 0 && maxStall == 0 && sentAt-cc.lastAct < effIdle/2 && cc.prevGap < effIdle/2 && sentAt-cc.lastAct < 10*time.Second && effIdle >= 100*time.Millisecond {
 							// (below 100 ms the scheduler's injected delays - up to 2 ms per unlock - can by themselves
 							// keep a request in the server longer than the idle time-out)
 							o.Vio("C17.active-connection-closed", "op="+stp.Op, "client %d step %d: connection answered before and active %v ago (IdleTimeout %v) got no reply to %s: %v", ci, si, sentAt-cc.lastAct, effIdle, stp.Op, err)
